@@ -391,7 +391,9 @@ class DefaultOperatorResolver(OperatorResolver):
                     "Nested multistage formulas do not support structured lhs."
                 )
 
-            return Structured(get_terms(lhs), deps=(Structured(lhs=lhs, rhs=rhs),))
+            return Structured(
+                OrderedSet(get_terms(lhs)), deps=(Structured(lhs=lhs, rhs=rhs),)
+            )
 
         def insert_unused_terms(context: Mapping[str, Any]) -> OrderedSet[Term]:
             available_variables: OrderedSet[str]
